@@ -25,7 +25,8 @@ ASSUMPTIONS = [
     "waitrequest when its FIFOs are full)",
     "the realistic slave (lib/native.py) only shows behaviour the real crossbar can show: one-cycle wdata.ready / rdata.valid strobes regardless of valid/ready, >= 3 / 5 "
     "cycles after acceptance, acceptance order",
-    "a run that has work outstanding after 3x the sum of all generated gaps, stalls and latencies (plus 400 cycles) is a hang",
+    "a run with work outstanding in which nothing happens on either interface (no beat accepted, no readdatavalid, no native command or data strobe, no master gap "
+    "counting down) for 250 + 4x(largest generated latency + stall + queue limit) cycles, or that exceeds 3x the sum of all generated gaps, stalls and latencies, is a hang",
     "bridge-internal state (FSM state, FIFO levels) is read only to NAME the cause of a failure the black-box oracle has already established",
     "violations are confirmed on stock migen.sim before being reported"]
 
@@ -100,8 +101,8 @@ def shards(tier, seed):
         k = (seed + i) % len(mine)
         mine = mine[k:] + mine[:k]
         if tier == "quick":
-            mine = mine[:3]
-        out.append(dict(tier=tier, seed=seed * 1000 + i, idx=i, devs=mine, ncases=(80 if tier == "quick" else 500)))
+            mine = mine[:4]
+        out.append(dict(tier=tier, seed=seed * 1000 + i, idx=i, devs=mine, ncases=(150 if tier == "quick" else 3000)))
     return out
 
 
